@@ -531,7 +531,23 @@ def eval_direct(s, bt, case):
             return kb.encrypt_image(case["base"], img, case["swap"], counter_value=cv)
         r = pyres(real)
         i = bt.add(f"kb_enc {otfad_blob_tok(b)} {case['base']} {tok(img)} {int(case['swap'])} {'-' if cv is None else cv}")
-        return lambda: s.compare(case, "ok:" + hexs(r[1]) if r[0] == "ok" else r[0], bt[i], "KeyBlob.encrypt_image: model differs")
+        # the ciphertext is bound to the counter value (default: the blob's start address - flash remap use case): the engine
+        # (context = this blob) reads the data back AT THAT ADDRESS, when the blob's window holds it
+        at = cv if cv else b["s"]
+        inside = r[0] == "ok" and len(b["key"]) == 32 and len(b["ctr"]) == 16 and len(img) > 0 and at % 16 == 0 and \
+            b["s"] <= at and at + len(r[1]) - 1 <= ((b["e"] - 1) | 0x3FF)
+        i_hw = None
+        if inside:
+            endw = (((b["e"] - 1) | 0x3FF) & ~7) | b["fl"]
+            i_hw = bt.add(f"otfad_hw {int(case['swap'])} {at} {tok(r[1])} 1 {b['key']} {b['ctr']} {b['s']} {endw}")
+
+        def fin_kb():
+            s.compare(case, "ok:" + hexs(r[1]) if r[0] == "ok" else r[0], bt[i], "KeyBlob.encrypt_image: model differs")
+            if i_hw is not None and bt[i_hw] is not None:
+                hw = unhex_ok(bt[i_hw])
+                s.expect(hw is not None and hw[:len(img)] == img, case,
+                         "KeyBlob.encrypt_image: the engine does not read the data back at the address given as counter value", hex(at), "plaintext")
+        return fin_kb
     if k == "tab":
         scr = case["scr"]
         mask, align = (scr if scr else (None, None))
